@@ -160,7 +160,7 @@ class TVCheck:
         return rep, cov, results
 
     def classify(self, rep, s):
-        tag = f"{s['src'][:300]} [{s['backend']}]"
+        tag = f"{s['src'][:300]} [{s['backend']}]" + (" [translated as the SECOND query of one executor object]" if "twice" in s["tags"] else "")
         if "must_raise" in s["tags"]:
             if s["status"] != "raised":
                 d = self.write_simple_bundle(s)
@@ -189,7 +189,7 @@ class TVCheck:
     def write_simple_bundle(self, s):
         import hashlib
         from ..tv.runner import REPLAY_ROOT
-        h = hashlib.sha1((s["backend"] + s["src"]).encode()).hexdigest()[:12]
+        h = hashlib.sha1((s["backend"] + s["src"] + ("|twice" if "twice" in s["tags"] else "")).encode()).hexdigest()[:12]
         d = REPLAY_ROOT / self.prop / h
         d.mkdir(parents=True, exist_ok=True)
         (d / "src.txt").write_text(s["src"] + "\n")
